@@ -354,10 +354,10 @@ func trim(s string) string {
 
 func main() {
 	driver.Main(driver.Property{
-		ID:    "C13",
-		Level: "exploration",
-		Rule:  "the concurrent scenario generators of C02/C03/C05/C06/C10/C11/C12 re-run in SILENT mode under the Go race detector (-race worker binary, GORACE=halt_on_error=0 log_path=…): observers are empty functions without any synchronisation, sources emit from one goroutine each without atomics or mutexes, the hook handler only calls Gosched — so the harness creates no happens-before edge that could hide a library race. Scenarios: every non-blocking catalogue entry with an asynchronous source at every input and 1-2 goroutines calling Unsubscribe/IsClosed while the sources emit; concurrent subscriptions of one pipeline value; asynchronous creation operators; five subjects under 4-6 goroutines mixing Next/Subscribe/Unsubscribe/accessors/Complete; Connectable (reset on/off), Share, ShareReplay under concurrent Connect/Subscribe/Unsubscribe; Subscription and safe/eventually-safe Subscriber under Add/Unsubscribe/IsClosed/Wait/Next/Complete; the prometheus PipeN collector and stand-alone counters under concurrent subscriptions and Collect. Oracle: race reports parsed from the log after each scenario; a report counts iff frame #0 of at least one racing access is a /repo file; key = pair of racing library functions. Reports with both accesses in harness files make the run inconclusive (harness bug), never a violation. Non-trivial: the scenario issued library operations.",
-		Assume: []string{"a race detector only reports races on executions that happen; the evidence lists scenarios and operation counts"},
+		ID:        "C13",
+		Level:     "exploration",
+		Rule:      "the concurrent scenario generators of C02/C03/C05/C06/C10/C11/C12 re-run in SILENT mode under the Go race detector (-race worker binary, GORACE=halt_on_error=0 log_path=…): observers are empty functions without any synchronisation, sources emit from one goroutine each without atomics or mutexes, the hook handler only calls Gosched — so the harness creates no happens-before edge that could hide a library race. Scenarios: every non-blocking catalogue entry with an asynchronous source at every input and 1-2 goroutines calling Unsubscribe/IsClosed while the sources emit; concurrent subscriptions of one pipeline value; asynchronous creation operators; five subjects under 4-6 goroutines mixing Next/Subscribe/Unsubscribe/accessors/Complete; Connectable (reset on/off), Share, ShareReplay under concurrent Connect/Subscribe/Unsubscribe; Subscription and safe/eventually-safe Subscriber under Add/Unsubscribe/IsClosed/Wait/Next/Complete; the prometheus PipeN collector and stand-alone counters under concurrent subscriptions and Collect. Oracle: race reports parsed from the log after each scenario; a report counts iff frame #0 of at least one racing access is a /repo file; key = pair of racing library functions. Reports with both accesses in harness files make the run inconclusive (harness bug), never a violation. Non-trivial: the scenario issued library operations. Half of the entry / concurrent-subscription scenarios append ro.Count to the pipeline (Counted): overlapping deliveries then conflict in library memory instead of in the empty observer.",
+		Assume:    []string{"a race detector only reports races on executions that happen; the evidence lists scenarios and operation counts"},
 		Plan:      plan,
 		Run:       runCase,
 		CaseWatch: 60 * time.Second,
